@@ -65,6 +65,24 @@ def short_mapper(i: int, j: int, k: int) -> bool:
     return all(o.isidentifier() for o in outs) and m(names[0]) == outs[0]
 
 
+UNIQ = ["h.0", "h_0", "h-0", "h_0_0", "h_0_1", "for", "r_for", "a"]
+
+
+def unique_mapper(i: int, j: int, k: int, l: int) -> bool:
+    """rename=False: distinct ONNX names get distinct python identifiers, equal names the same one, for any 4 requests
+    (triples that collide after clean-up and names equal to a generated suffix included)
+    vp-pre: 0 <= i < 8 and 0 <= j < 8 and 0 <= k < 8 and 0 <= l < 8
+    """
+    m = OX._make_unique_name_mapper()
+    names = [UNIQ[i], UNIQ[j], UNIQ[k], UNIQ[l]]
+    outs = [m(n) for n in names]
+    for a in range(4):
+        for b in range(4):
+            if (names[a] == names[b]) != (outs[a] == outs[b]):
+                return False
+    return all(o.isidentifier() and not keyword.iskeyword(o) for o in outs) and [m(n) for n in names] == outs
+
+
 USED = ["x", "x_0", "x_1", "y"]
 
 
@@ -92,6 +110,10 @@ OBLIGATIONS = [
      "functions": ["onnxscript.backend.onnx_export:_cleanup_variable_name"], "bounds": "155 names", "stubs": []},
     {"id": "c13.x.short_mapper", "func": "short_mapper", "timeout": 300,
      "functions": ["onnxscript.backend.onnx_export:_make_short_name_mapper"], "bounds": "3 requests from an 8-name table with clean-up collisions", "stubs": []},
+    *[{"id": f"c13.x.unique_mapper.i{q}", "func": "unique_mapper", "extra_pres": [f"i == {q}"], "timeout": 300,
+       "functions": ["onnxscript.backend.onnx_export:_make_unique_name_mapper"],
+       "bounds": "4 requests from an 8-name table with triple clean-up collisions and generated-suffix names (first request fixed per slice)", "stubs": []}
+      for q in range(8)],
     {"id": "c13.x.attr_conflict", "func": "attr_conflict", "timeout": 120,
      "functions": ["onnxscript.backend.onnx_export:_Exporter._handle_attrname_conflict"], "bounds": "used names: any subset of 4; 2 attribute names", "stubs": []},
 ]
